@@ -35,6 +35,53 @@ def evaluate_case(text, asg):
     return r['abs'], list(log)
 
 
+def evaluate_reused(text, asgs):
+    """ONE model and ONE evaluator for the formula; the truth assignments are applied one after the other with
+    set_cell_value (a blank is set as None) and the formula is evaluated after each: -> [(value, spy log)]"""
+    L = xl.lib()
+    log = []
+
+    def SPY(k):
+        log.append(int(k))
+        return k
+    out = []
+
+    def fn():
+        model, ev = xl.build_model({a: ('value', 0) for a in CELLS}, {'Sheet1!Z1': text, 'Sheet1!Q1': '=Q1+1'})
+        ev.namespace['SPY'] = SPY
+        for asg in asgs:
+            for a, v in zip(CELLS, asg):
+                ev.set_cell_value(a, None if v['t'] == 'blank' else xl.from_abs(v, 'native'))
+            del log[:]
+            try:
+                val = xl.to_abs(ev.evaluate('Sheet1!Z1'))
+            except BaseException as e:      # noqa
+                if isinstance(e, (KeyboardInterrupt, SystemExit, sandbox._Timeout)):
+                    raise
+                val = {'t': 'pyexc', 'cls': type(e).__name__, 'msg': str(e)[:160]}
+            out.append((val, list(log)))
+        return {'done': True}
+    r = sandbox.run_timed(fn, wall_s=20)
+    while len(out) < len(asgs):
+        out.append(({'t': 'pyexc', 'cls': r.get('outcome', 'timeout'), 'msg': ''}, []))
+    return out
+
+
+def reuse_worker(groups):
+    out = {'n': 0, 'dis': []}
+    for text, items in groups:
+        obs = evaluate_reused(text, [ASSIGN[g - 1] for g, _, _ in items])
+        for (g, outs, kind), (val, log) in zip(items, obs):
+            out['n'] += 1
+            ok = admissible(val, log, outs)
+            if ok is False:
+                out['dis'].append({'case': {'formula': text, 'cells': ASSIGN[g - 1], 'kind': kind, 'reused_model': True,
+                                            'assignments_before': [x[0] for x in items[:[x[0] for x in items].index(g)]]},
+                                   'exp': outs, 'obs': {'value': val, 'spy_log': log},
+                                   'features': {'kind': kind, 'clause': 'reused-model', 'fn': text[1:text.index('(')]}})
+    return out
+
+
 def admissible(obs, log, outs):
     """observed (value, spy log) must be one of the admissible outcomes; None if the case is undetermined"""
     if any(o['v']['t'] == 'open' for o in outs):
@@ -100,6 +147,19 @@ def run(run):
         for d in res['dis']:
             run.disagree('logic', d['case'], d['exp'], d['obs'], d['features'], clause=d['features']['clause'])
     run.notes['cases_by_kind'] = kinds
+    # the same cases again on a REUSED model: one model / evaluator per formula, assignments applied with set_cell_value
+    groups = {}
+    for b in blocks:
+        st = pool.parse_block(b)
+        groups.setdefault(''.join(map(chr, st['case']['text'])), []).append((st['case']['asg'], st['res'], st['case']['kind']))
+    glist = [(t, sorted(v, key=lambda x: x[0])) for t, v in groups.items() if len(v) > 1]
+    nre = 0
+    for res in pool.pmap(reuse_worker, glist):
+        nre += res['n']
+        for d in res['dis']:
+            run.disagree('logic', d['case'], d['exp'], d['obs'], d['features'], clause='reused-model')
+    run.evaluations += nre
+    run.notes['reused_model_evaluations'] = nre
     run.rule = ('18 conditions (constants, numbers, blank cell, references under 4 truth assignments, comparisons, nested AND/OR/NOT/IF, '
                 'error values) x 6 branch expressions (constants, references, SPY, nested IF with spies) in both branches and in the '
                 'two-argument form; poisoned branches (unknown function, circular reference, 1/0) on either side; AND/OR of arity 1-3 '
